@@ -116,6 +116,7 @@ def run(ctx):
     F.run_recorded(ctx, PID, "random-wide", 40 if ctx.quick else 2000, 30 if ctx.quick else 50, OPS + ["docset", "update_cache", "delete_cache", "copy", "setkey"], projects=("P",))
     prefix_check(ctx)
     F.large_workspace(ctx, PID)
+    F.cli_front(ctx, PID)
     ctx.cov["binding_selftest"] = F.selftest(ctx, PID)
 
 
